@@ -271,6 +271,11 @@ class Program(object):
             self._index_defs(m)
         for f in self.funcs:
             self.by_qbase.setdefault(f.qbase, []).append(f)
+            for d in f.decorators:
+                # a decorator spelled through a module-level alias
+                # (_writer = db_api.placement_context_manager.writer) is the
+                # decorator it names
+                d.qname = self.resolve_alias(d.qname)
         for f in self.funcs:
             if f.qname in self.by_qname:
                 # same window twice or unversioned redefinition: keep ordinal
@@ -413,6 +418,32 @@ class Program(object):
         else:
             return '.'.join(parts) if head in _BUILTIN_NAMES else None
         return '.'.join([base] + parts[1:])
+
+    def resolve_alias(self, dotted, depth=0):
+        """Follow module-level aliases: ``m._writer`` where module m says
+        ``_writer = db_api.placement_context_manager.writer`` (assigned once,
+        value a plain dotted expression) resolves to what the value names.
+        Any trailing attributes are kept."""
+        if not dotted or '>' in dotted or depth > 5:
+            return dotted
+        parts = dotted.split('.')
+        for i in range(len(parts) - 1, 0, -1):
+            mod = '.'.join(parts[:i])
+            m = self.modules.get(mod)
+            if m is None:
+                continue
+            name, rest = parts[i], parts[i + 1:]
+            if name in m.functions or name in m.classes:
+                return dotted
+            sts = m.assigns.get(name)
+            if sts and len(sts) == 1 and isinstance(sts[0], ast.Assign) \
+                    and isinstance(sts[0].value, (ast.Attribute, ast.Name)):
+                tgt = self.dotted(m, sts[0].value)
+                if tgt and tgt != dotted:
+                    return self.resolve_alias('.'.join([tgt] + rest),
+                                              depth + 1)
+            return dotted
+        return dotted
 
     def lookup(self, dotted):
         """Dotted name -> list of Func, a Class, a Module or None."""
